@@ -325,7 +325,51 @@ def job_cmp_bv():
     return {"group": "Cmp / LexicographicallyLargest [bv, FromMont havocked to an arbitrary reduced value]", "recs": recs, "info": ctx_info(ctx), "harness": h, "params": {}, "mode": "cmpbv"}
 
 
+def job_batchinvert(n, mask):
+    """algebra level (rational functions): Montgomery batch inversion for one zero pattern"""
+    from gosmt import field, stdlib as st_
+    from gosmt.driver import identity_by_normal_form
+    from gosmt.harness import frame_obligations, _name
+    from gosmt.values import Ptr as P_
+    h = "VerifC15BatchInvert"
+    params = {"n": n, "zeromask": mask}
+
+    def setup(ex):
+        st_.install(ex)
+        dom = field.install_real(ex, types=("repo",))
+
+        def sym(ex_, args, ins):
+            nm = _name(ex_, args[0])
+            v = dom.sym("A_" + nm.replace("#", "_"), nonzero=True, ctx=ex_.ctx)
+            ex_.ctx.vars[nm] = (v.t, 0, False)
+            return (v,)
+        ex.intrinsics[FR + ".c15sym"] = sym
+    ctx, ex = D.execute(PROG, FR + "." + h, intmode="bv", params=params, setup=setup, harness_pkgs=[FR], unwind=1000, prune=False)
+    EL = FR + ".Element"
+    obs = []
+    ln = [v for (l, g, v) in ctx.notes if l == "len"][0]
+    obs.append(ob("BatchInvert returns one entry per input", ln != n))
+    res = [v for (l, g, v) in ctx.notes if l == "res"][0]
+    k = 0
+    for i in range(min(n, res.len if not is_term(res.len) else 0)):
+        r = ex.load(P_(res.ptr.obj, res.ptr.off + i, res.ptr.sym), EL)
+        if (mask >> i) & 1:
+            okz, _ = identity_by_normal_form(r.t, z3.RealVal(0), None)
+            obs.append(ob("zero input %d gives zero" % i, not (okz is True)))
+        else:
+            a = ctx.vars["a" if k == 0 else "a#%d" % k][0]
+            k += 1
+            o = Obligation("res[%d] * a[%d] = 1" % (i, i), r.t * a != 1, "assert")
+            o.ident = (r.t * a, z3.RealVal(1))
+            obs.append(o)
+    obs += frame_obligations(ex)
+    recs = D.discharge_all(ctx, extra=obs, timeout_ms=60000)
+    return {"group": "BatchInvert n=%d zero pattern %s [A_Q]" % (n, bin(mask)), "recs": recs, "info": ctx_info(ctx), "harness": h, "params": params, "mode": "bi"}
+
+
 def job(h, params, mode):
+    if mode == "bi":
+        return job_batchinvert(params["n"], params["zeromask"])
     if mode == "tail":
         return job_tail(h, params)
     if mode == "cmpbv":
@@ -362,6 +406,13 @@ def job(h, params, mode):
 
 
 def make_replay(h, params, mode):
+    if mode == "bi":
+        def cb3(rec):
+            from checks.c01 import real_to_mod
+            vals = {k: real_to_mod(v) for k, v in (rec.get("model") or {}).items()}
+            res = native_replay(BUILD, FR, FR + "." + h, params, vals, tag="batchinvert")
+            return (None if not res["built"] else bool(res["failed"] or res["panics"])), res["path"]
+        return cb3
     if mode in ("tail", "cmpbv"):
         def cb2(rec):
             # over-approximated runs (havoc): the model fixes an intermediate value (pre-reduction T / regular values), the
@@ -438,7 +489,8 @@ def run(tier, seed):
     rep.bounds = {"inputs": "all limb values with x,y < r (reduce: x < 2r); full 4x64-bit width, no size reduction",
                   "aliasing": "receiver/operand patterns 0..4 enumerated (distinct, z=x, z=y, x=y, all equal)",
                   "assembly": "every TEXT symbol of the three .s files (ADX path symbolically, fallback = call of the portable function with unchanged arguments), aliasing patterns of the pointer arguments enumerated",
-                  "outside": "Inverse, Sqrt, Exp, Legendre, BatchInvert (algebra level, not built); schoolbook lemma sum P(x_i,y_j)W^(i+j)=x*y taken on paper; violations found in the assembly groups are reported without native replay (the replay would need the mutated assembly to be the one linked, which it is: see DESIGN 0.2)"}
+                  "BatchInvert": "every zero pattern of n <= 4 inputs (31 runs), rational-function identities res[i]*a[i] = 1, zero -> zero, input untouched",
+                  "outside": "Inverse, Sqrt, Exp, Legendre (not built); schoolbook lemma sum P(x_i,y_j)W^(i+j)=x*y taken on paper; violations found in the assembly groups are reported without native replay (the replay would need the mutated assembly to be the one linked, which it is: see DESIGN 0.2)"}
     rep.assumptions = ["abstract 64x64 product P(a,b) constrained only by 0<=P<=(2^64-1)a,(2^64-1)b (true of real multiplication)",
                        "dropped-result lemmas are proved before use, never assumed", "operands are reduced (documented Element invariant)"]
     lin_names = ("VerifC15Add", "VerifC15Sub", "VerifC15Double", "VerifC15Neg", "VerifC15Reduce", "VerifC15API", "VerifC15Butterfly")
@@ -446,8 +498,9 @@ def run(tier, seed):
     if tier == "thorough":
         jobs += [(h, p, "bv") for h, p in BV_JOBS]
     else:
-        jobs += [(h, p, "bv") for h, p in BV_JOBS if h in ("VerifC15Add", "VerifC15Neg", "VerifC15Double", "VerifC15Reduce", "VerifC15Bits", "VerifC15MulByConstant")]
-    jobs += [("VerifC15Mul", {"alias": a}, "tail") for a in range(5)] + [("VerifC15FromMont", {}, "tail"), ("VerifC15Cmp", {}, "cmpbv")]
+        jobs += [(h, p, "bv") for h, p in BV_JOBS if h in ("VerifC15Neg", "VerifC15Double", "VerifC15Reduce", "VerifC15Bits", "VerifC15MulByConstant") or (h == "VerifC15Add" and p.get("alias") == 0)]
+    jobs += [("VerifC15Mul", {"alias": a}, "tail") for a in (range(5) if tier == "thorough" else (0, 4))] + [("VerifC15FromMont", {}, "tail"), ("VerifC15Cmp", {}, "cmpbv")]
+    jobs += [("VerifC15BatchInvert", {"n": n, "zeromask": m_}, "bi") for n in range(0, 5) for m_ in range(1 << n)]
     jobs.sort(key=lambda j: 0 if j[2] == "int" else 1)
 
     def on_result(a, item):
